@@ -131,6 +131,17 @@ type Converter interface {
 	Convert(source In) (Out, error)
 }
 `}})
+	// S6: many converters with an equal sort key (variables blocks have no name): two packages x seven blocks
+	mv := map[string]string{}
+	for _, pk := range []string{"alpha", "beta"} {
+		var sb strings.Builder
+		sb.WriteString("package " + pk + "\n\ntype In struct{ V int; N Nested }\ntype Nested struct{ S string }\ntype Out struct{ V int; N NestedOut }\ntype NestedOut struct{ S string }\n\n")
+		for k := 0; k < 7; k++ {
+			fmt.Fprintf(&sb, "// goverter:variables\nvar (\n\tConvert%c func(source In) Out\n)\n\n", 'G'-k)
+		}
+		mv[pk+"/input.go"] = sb.String()
+	}
+	ps = append(ps, c09Prog{name: "manyvars", pkgs: []string{"./alpha", "./beta"}, files: mv, note: "fourteen variables blocks (equal names) in two packages"})
 	// F1: several unknown fields in one ignore
 	ps = append(ps, c09Prog{name: "f_ignore", pkgs: []string{"./p"}, fails: true, note: "ignore names several non-existent fields",
 		files: map[string]string{"p/input.go": "package p\n\ntype In struct{ V int }\ntype Out struct{ V int }\n\n// goverter:converter\ntype Converter interface {\n\t// goverter:ignore Zeta Alpha Beta Gamma Delta Epsilon\n\tConvert(source In) Out\n}\n"}})
